@@ -133,6 +133,7 @@ class Interp:
         self.origin = {}     # hid -> hid it was derived from by strip_prefix(root)
         self.canon = set()   # hids holding canonicalised paths
         self.sinks = []      # (node, state, desc)
+        self._eo = None
         self.names = {}
 
     # ---- guards
@@ -197,6 +198,20 @@ class Interp:
                 # configuration values; accept fields of self / clean locals
                 return ({h}, False)  # cond is False when the path is outside the root
         return None
+
+    def _existence_only(self):
+        """ids of sink calls whose Result is consumed on the spot by is_ok()/is_err()"""
+        if self._eo is None:
+            self._eo = set()
+            for b in self.P.bodies:
+                if b.get("crate") != "versatiles":
+                    continue
+                for y in ir.walk_nodes(b["body"]):
+                    if y.get("k") == "mcall" and y.get("name") in ("is_ok", "is_err") and not y.get("a"):
+                        r = ir.strip(y["recv"])
+                        if r is not None and r.get("k") in ("call", "mcall") and ((r.get("q") or "") in CONTENT_SINKS or (r.get("rvq") or "") in CONTENT_SINKS):
+                            self._eo.add(id(r))
+        return self._eo
 
     # ---- expression evaluation (returns taint state of the value; updates env; records sinks)
     def ev(self, n, env):
@@ -366,6 +381,8 @@ class Interp:
         worst = max(states + [CLEAN])
         # sinks
         if q0 in CONTENT_SINKS or q in CONTENT_SINKS:
+            if id(n) in self._existence_only():
+                return CLEAN    # `File::open(p).is_ok()`: no handle survives, so no content can be returned (the property is about returned content)
             self.sinks.append((n, worst, q0))
             return CLEAN
         if q0 in PROBES:
